@@ -543,6 +543,7 @@ def c03_groups(tier, tag='C03'):
     gs.append(Group(tag + '.tLwePhase', 'c03_encrypt.c', 'h_tLwePhase', extract=[(TL, 'tLwePhase')], loops=True, defines={'H_TLWE_PHASE': None}))
     gs.append(Group(tag + '.tLweApproxPhase', 'c03_encrypt.c', 'h_tLweApproxPhase', extract=[(TL, 'tLweApproxPhase')], loops=True, defines={'H_TLWE_PHASE': None}))
     gs.append(Group(tag + '.tLweSymDecrypt+T', 'c03_encrypt.c', 'h_tLweSymDecrypt', extract=[(TL, 'tLweSymDecrypt'), (TL, 'tLweSymDecryptT')], defines={'H_TLWE_DEC': None}))
+    gs.append(Group(tag + '.tGswSymEncrypt+tGswEncryptB', 'c03_encrypt.c', 'h_tGswWrappers', extract=[(TG, 'tGswSymEncrypt'), (TG, 'tGswEncryptB')], defines={'H_TGSWWRAP': None}))
     # noiseless trivial samples: all-zero mask, b = mu (C14 contract enforced on the real body)
     gs.append(Group(tag + '.dep.lweNoiselessTrivial', 'c14_lwe.c', 'h_lweNoiselessTrivial', extract=[(LF, 'lweNoiselessTrivial')], enforce='lweNoiselessTrivial', loops=True))
     return gs
@@ -556,8 +557,17 @@ def c07_groups(tier, tag='C07'):
     gs.append(Group(tag + '.tGswEncryptZero', 'c03_encrypt.c', 'h_tGswEncryptZero', extract=[(TG, 'tGswEncryptZero')], loops=True, defines={'H_TGSWZERO': None}))
     for (n_, t_, bb_) in ([(1, 2, 1), (2, 1, 2), (2, 2, 1)] if tier == 'quick' else [(1, 2, 1), (2, 1, 2), (2, 2, 1), (1, 1, 3), (3, 2, 2), (2, 3, 1)]):
         gs.append(Group('%s.lweCreateKeySwitchKey.bounded.n=%d.t=%d.basebit=%d' % (tag, n_, t_, bb_), 'c03_encrypt.c', 'h_b_createKeySwitchKey',
-                        extract=[(KS, 'lweCreateKeySwitchKey', S_)], defines={'H_KSCREATE': None, 'VERIF_KS_N': n_, 'VERIF_KS_T': t_, 'VERIF_KS_BB': bb_, 'VERIF_ALPHA': '0x1p-15'},
-                        unwind=n_ * t_ * (1 << bb_) + 3, bounded=True, instance={'n': n_, 't': t_, 'basebit': bb_}))
+                        extract=[(KS, 'lweCreateKeySwitchKey', S_)], defines={'H_KSCREATE': None, 'VERIF_KS_N': n_, 'VERIF_KS_T': t_, 'VERIF_KS_BB': bb_, 'KS_ALPHA_SYMBOLIC': None},
+                        unwind=n_ * t_ * (1 << bb_) + 3, bounded=True, timeout=900, instance={'n': n_, 't': t_, 'basebit': bb_, 'alpha': 'symbolic in [0,1]'}))
+    for K in ([1, 2] if tier == 'quick' else [1, 2, 3]):
+        gs.append(Group('%s.tLweKeyGen.k=%d' % (tag, K), 'c03_encrypt.c', 'h_tLweKeyGen', extract=[(TL, 'tLweKeyGen', S_)], loops=True,
+                        defines={'H_TLWEKEYGEN': None, 'VERIF_K': K}, instance={'k': K}))
+    gs.append(Group(tag + '.tGswKeyGen.k=1', 'c03_encrypt.c', 'h_tLweKeyGen', extract=[(TL, 'tLweKeyGen', S_), (TG, 'tGswKeyGen')], loops=True,
+                    defines={'H_TLWEKEYGEN': None, 'VERIF_K': 1, 'VIA_TGSW': None}, instance={'k': 1}))
+    gs.append(Group(tag + '.tGswSymEncrypt+tGswEncryptB', 'c03_encrypt.c', 'h_tGswWrappers', extract=[(TG, 'tGswSymEncrypt'), (TG, 'tGswEncryptB')], defines={'H_TGSWWRAP': None}))
+    gs.append(Group(tag + '.new_random_gate_bootstrapping_secret_keyset', 'c03_encrypt.c', 'h_keysetgen',
+                    extract=[(GBS, 'TFheGateBootstrappingCloudKeySet::TFheGateBootstrappingCloudKeySet'), (GBS, 'TFheGateBootstrappingSecretKeySet::TFheGateBootstrappingSecretKeySet'),
+                             (GB, 'new_random_gate_bootstrapping_secret_keyset')], defines={'H_KEYSETGEN': None}, unwind=14))
     for A in ['0x1p-25', '7.18e-9']:
         gs.append(Group('%s.tLweSymEncryptZero.alpha=%s' % (tag, A), 'c03_encrypt.c', 'h_tLweSymEncryptZero', extract=[(TL, 'tLweSymEncryptZero')],
                         loops=True, defines={'H_TLWEZERO': None, 'VERIF_ALPHA': A}, instance={'alpha': A}))
@@ -565,6 +575,9 @@ def c07_groups(tier, tag='C07'):
 
 
 TGF = 'tgsw-fft-operations.cpp'
+
+
+ADDMU_BACKEND = None
 
 
 def c09_groups(tier, tag='C09'):
@@ -582,6 +595,9 @@ def c09_groups(tier, tag='C09'):
         for M in ['0', '1', '2', '3']:
             gs.append(Group('%s.tGswAddMuIntH.k=%d.l=%d.m=%s' % (tag, K, L, M), 'c09_extprod.c', 'h_gadget_rows', extract=[(TG, 'tGswAddMuIntH')],
                             defines=dict(d, H_ROWS=None, ROWS_INT=None, VERIF_MCONST=M), unwind=U, instance=dict(inst, message=M)))
+        rows2 = '#define ROWS2_COMMA(M) %s\n' % ', '.join('M(%d)' % q for q in range((K + 1) * L))
+        gs.append(Group('%s.tGswAddMuH.k=%d.l=%d' % (tag, K, L), 'c09_extprod.c', 'h_tGswAddMuH', extract=[(TG, 'tGswAddMuH')], loops=True, backend=ADDMU_BACKEND,
+                        defines=dict(d, H_ADDMUH=None), gen={'rows2.inc': rows2}, timeout=1200, instance=inst))
         gs.append(Group('%s.rowwise.k=%d.l=%d' % (tag, K, L), 'c09_extprod.c', 'h_tgsw_rowwise',
                         extract=[(TGF, 'tGswToFFTConvert'), (TG, 'tGswClear'), (TG, 'tGswMulByXaiMinusOne')], defines=dict(d, H_CONVERT=None), unwind=U, instance=inst))
     for (L, B) in ([(3, 7), (2, 10), (4, 8)] if tier == 'quick' else [(l, b) for (l, b) in valid_layouts() if l <= 8]):
